@@ -190,6 +190,20 @@ CLAIMED.update({
         ref="DESIGN.md 3/C03"),
 })
 
+CLAIMED.update({
+    "C13": dict(
+        text="Structural proof on the real Google / Numpy readers and main loops of what makes the render-then-parse round trip work: line classification of the block "
+             "readers for one generic line from an arbitrary reader state (blank and indented lines continue the item, an item-level line starts a new one, the "
+             "section ends only where the layout says, every line read exactly once, finished items kept in order); for all 22 item readers one generic item "
+             "from an arbitrary carried state yields an element that depends only on that item and the signature (no leakage between items: non-interference with "
+             "the havocked loop state); an iteration of the main loops that starts a known section leaves no state of the previous one (text buffer flushed and "
+             "emptied, admonition title cleared); documented section titles map to their kinds and kinds to their readers. "
+             "Equality of the recovered fields with the written ones is a bounded native round trip (renderer in /verif).",
+        note="Restricted claim: field-level recovery (regular expressions) is bounded only; Sphinx is covered by the native tier and C12's contracts. "
+             "Fixed: C13-P1 (Google attribute type leak), C13-P2 (Numpy trailing newline); known: C13-F1 (Sphinx :type: after :param: ignored).",
+        ref="DESIGN.md 3/C13"),
+})
+
 NA_REASON = {
     "C17": "relates two whole-program analyses through CPython's run-time object model; a contract for the inspector would have to assume the very "
            "object model the property compares against, so no obligation over /repo code alone implies agreement (DESIGN.md section 4)",
